@@ -92,6 +92,10 @@ def gen_arrays(ctx, n):
         elif i % 7 == 6:
             x, y = x.astype(np.float32), y.astype(np.float32)
         out.append((x, y, K, bound))
+    # large queries (rows of x times K in the thousands) with a finite bound
+    for j in range(3 if ctx.quick() else 30):
+        nx, ny, nf, K = int(rs.choice([120, 160, 220])), int(rs.choice([60, 150])), int(rs.randint(1, 4)), int(rs.choice([10, 15]))
+        out.append((rs.randn(nx, nf), rs.randn(ny, nf), K, [0.05, 0.3, 1.0][j % 3]))
     return out
 
 
@@ -128,7 +132,7 @@ EXPR = "fun c => let '(D, II, K, ny) := c in run_kdt D II K ny"
 
 def run(ctx):
     ctx.rule = ('(a) random K-NN query tables (1-9 rows each side, K 1-5, ties, missing neighbours) injected through a wrapped '
-                'cKDTree.query; (b) real feature arrays (1-4 features, 1-%d rows, K 1-15, bounds inf/1.0/0.3, with exact ties '
+                'cKDTree.query; (b) real feature arrays (1-4 features, 1-%d rows (plus a few queries of 120-220 rows with K 10-15 and a finite bound), K 1-15, bounds inf/1.0/0.3, with exact ties '
                 'and sorted variants; integer-typed candidates with real-valued queries, the reverse, and float32; candidate buffers refilled in place between consecutive calls) whose real query table is rank-coded for the model; non-trivial = at least two rows compete '
                 'for one candidate in some column' % (40 if ctx.quick() else 200))
     ctx.proof(extra=['props/Prop_Tie_Kdt.v'])  # translation tie: program regenerated from the source + refinement theorems
